@@ -1,4 +1,9 @@
-From Coq Require Import Extraction ExtrOcamlBasic ExtrOcamlString.
+From Coq Require Import Extraction ExtrOcamlBasic ExtrOcamlString List.
 From Model Require Import Bytes Run.
 Extraction Language OCaml.
+(* Coq's List.rev is quadratic (defined with ++); the model reverses header values of up to
+   16 KiB and bodies.  The one extraction directive of the development beyond ExtrOcamlBasic /
+   ExtrOcamlString: List.rev is realised by OCaml's List.rev (same function, linear).  Listed
+   in the trusted base. *)
+Extract Inlined Constant rev => "List.rev".
 Extraction "model.ml" run judge.
